@@ -132,7 +132,6 @@ class DeferDriver:
         ctx.d = desper.EventDispatcher()
         ctx.listeners = {'L1': L1('L1', ctx), 'L2': L2('L2', ctx)}
         ctx.registered = set()
-        ctx.known = set()       # event names that have had a handler
         ctx.enabled = True
         ctx.pending = []        # [(event, payload, optional)]
         ctx.counter = 0
@@ -203,7 +202,6 @@ class DeferDriver:
         if kind == 'add':
             d.add_handler(ctx.listeners[op[1]])
             ctx.registered.add(op[1])
-            ctx.known |= set(ctx.listeners[op[1]].__events__)
             if ctx.pending:
                 ctx.hits['listeners_changed_while_pending'] += 1
         elif kind == 'remove':
@@ -217,7 +215,6 @@ class DeferDriver:
             if ctx.pending:
                 ctx.hits['clear_with_backlog'] += 1
             ctx.registered = set()
-            ctx.known = set()
             ctx.pending = []
             ctx.enabled = True
         elif kind == 'disable':
@@ -249,13 +246,11 @@ class DeferDriver:
                     raise Violation('nothing_delivered_while_disabled',
                                     f'dispatch({ev}) while disabled called '
                                     f'{ctx.log}')
-                # an event that has had handlers is a known event (dispatch
-                # docstring): it is held even when nobody listens right now
-                ctx.pending.append((ev, payload, ev not in ctx.known))
+                # the statement covers events "whose name had a listener when
+                # it was dispatched"; the others may be held or dropped
+                ctx.pending.append((ev, payload, not listening))
                 if not listening:
                     ctx.hits['queued_without_listener'] += 1
-                    if ev in ctx.known:
-                        ctx.hits['known_event_held_without_listener'] += 1
         elif kind == 'enable':
             self._release(ctx, dict(op[1]))
         else:
@@ -389,7 +384,8 @@ class DeferDriver:
                 # whichever fault stopped the release first, events that a
                 # callback dispatched after disabling are queued behind it
                 for ev, fresh in ctx.injected:
-                    ctx.pending.append((ev, fresh, ev not in ctx.known))
+                    ctx.pending.append(
+                        (ev, fresh, not self._listening(ctx, ev)))
                 ctx.hits['dispatch_behind_backlog'] += 1
             if fk in ('disable', 'disable_dispatch') or any(
                     f[1] in ('disable', 'disable_dispatch') for f in fired):
@@ -416,7 +412,7 @@ class DeferDriver:
             return None
         return (canon((ctx.d,), namer), ctx.enabled,
                 tuple((e, o) for e, _, o in ctx.pending),
-                tuple(sorted(ctx.registered)), tuple(sorted(ctx.known)))
+                tuple(sorted(ctx.registered)))
 
 
 # -- SimpleLoop.switch releases the world that is entered (loop.py anchor) ----
@@ -672,10 +668,8 @@ def drivers(tier):
 def run(tier, rep):
     rep.rule = RULE
     rep.assumptions += [
-        'events whose name never had a listener (since the dispatcher was '
-        'created or cleared) when dispatched may be queued or dropped; an '
-        'event that has had handlers is a known event (dispatch docstring) '
-        'and is held like any other',
+        'events whose name had no listener when dispatched may be queued or '
+        'dropped',
         'the remaining listeners of the one event whose callback raised or '
         'disabled may or may not receive it; whether the exception '
         'propagates is free',
@@ -701,8 +695,7 @@ def run(tier, rep):
                      dispatch_while_enabled_with_backlog=1,
                      clear_with_backlog=1,
                      listeners_changed_while_pending=1,
-                     queued_without_listener=1,
-                     known_event_held_without_listener=1)
+                     queued_without_listener=1)
     for name, (driver, kw) in drivers(tier).items():
         kernel.explore(driver, rep, part=name, params=driver.params(), **kw)
     gate = world_gate_driver(tier)
